@@ -88,3 +88,38 @@ package job
 
 //@ func GenerateTaskName
 //@   ensures [C08,C09,C14] name-is-a-function-of-job-index-retry: result1 == nil ==> result0 == taskNameOf(name, index)
+
+// ---- task_status.go: GenerateTaskRefs (C09: tasks are never forgotten; C11: recorded times are never cleared) ---------------
+
+//@ pure hasRef(refs []execution.TaskRef, name string) bool = exists i int :: 0 <= i && i < len(refs) && refs[i].Name == name
+//@ pure isLost(r execution.TaskRef) bool = r.Status.State == execution.TaskDeletedFinalStateUnknown
+
+//@ func SortTaskRefs
+//@   modifies elems(taskRefs)
+//@   ensures [C09] same-elements: (forall i int :: 0 <= i && i < len(taskRefs) ==> (exists j int :: 0 <= j && j < len(taskRefs) && taskRefs[i] == old(taskRefs[j])))
+//@        && (forall j int :: 0 <= j && j < len(taskRefs) ==> (exists i int :: 0 <= i && i < len(taskRefs) && taskRefs[i] == old(taskRefs[j])))
+
+//@ func GenerateTaskRefs
+//@   tags C09, C11
+//@   modifies clock
+//@   loop 1 invariant -1 <= rangeindex && rangeindex < len(existing) && existingRefs != nil
+//@   loop 1 invariant forall k int :: 0 <= k && k <= rangeindex ==> (existing[k].Name in existingRefs)
+//@   loop 1 invariant forall n string :: (n in existingRefs) ==> existingRefs[n].Name == n && (exists k int :: 0 <= k && k <= rangeindex && existingRefs[n] == existing[k])
+//@   loop 2 invariant -1 <= rangeindex && rangeindex < len(tasks) && len(newRefs) == rangeindex + 1 && newRefNames != nil && newRefNames != existingRefs
+//@   loop 2 invariant forall j int :: 0 <= j && j <= rangeindex ==> newRefs[j].Name == jobtasks.taskName(tasks[j]) && (jobtasks.taskName(tasks[j]) in newRefNames)
+//@        && newRefs[j].Status == jobtasks.taskRefOf(tasks[j]).Status
+//@   loop 2 invariant forall j int :: 0 <= j && j <= rangeindex && (jobtasks.taskName(tasks[j]) in existingRefs) ==>
+//@        (!existingRefs[jobtasks.taskName(tasks[j])].RunningTimestamp.IsZero() ==> !newRefs[j].RunningTimestamp.IsZero())
+//@        && (!existingRefs[jobtasks.taskName(tasks[j])].FinishTimestamp.IsZero() ==> !newRefs[j].FinishTimestamp.IsZero())
+//@   loop 2 invariant forall n string :: (n in newRefNames) ==> (exists j int :: 0 <= j && j <= rangeindex && jobtasks.taskName(tasks[j]) == n)
+//@   loop 3 invariant -1 <= rangeindex && rangeindex < len(existing) && len(newRefs) >= len(tasks)
+//@   loop 3 invariant forall j int :: 0 <= j && j < len(tasks) ==> newRefs[j].Name == jobtasks.taskName(tasks[j]) && newRefs[j].Status == jobtasks.taskRefOf(tasks[j]).Status
+//@   loop 3 invariant forall k int :: 0 <= k && k <= rangeindex ==> hasRef(newRefs, existing[k].Name)
+//@   loop 3 invariant forall i int :: len(tasks) <= i && i < len(newRefs) ==> !newRefs[i].FinishTimestamp.IsZero()
+//@        && (exists k int :: 0 <= k && k <= rangeindex && newRefs[i].Name == existing[k].Name && !(existing[k].Name in newRefNames)
+//@              && (!existing[k].RunningTimestamp.IsZero() ==> !newRefs[i].RunningTimestamp.IsZero()))
+//@   ensures [C09] listed-tasks-never-forgotten: forall k int :: 0 <= k && k < len(existing) ==> hasRef(result, existing[k].Name)
+//@   ensures [C09] present-tasks-listed: forall j int :: 0 <= j && j < len(tasks) ==> hasRef(result, jobtasks.taskName(tasks[j]))
+//@   ensures [C09] present-task-never-marked-lost: forall j int :: 0 <= j && j < len(tasks) ==>
+//@        (exists i int :: 0 <= i && i < len(result) && result[i].Name == jobtasks.taskName(tasks[j]) && result[i].Status == jobtasks.taskRefOf(tasks[j]).Status)
+//@   ensures [C11] count-covers-present-tasks: len(result) >= len(tasks)
